@@ -417,8 +417,8 @@ def check(prop, tier, obligations, level="model_checking", seed=0, extra_assumpt
             print("VIOLATION property=%s replay=%s" % (prop, v["replay"]))
             print("  obligation=%s %s:%s cube=%s values=%s" % (v["obligation"], v["kind"], v["label"], json.dumps(v["consts"]), json.dumps(v["values"])))
         return 1
-    if engine_errors:
-        return 3
+    if engine_errors and tot["sat"] + tot["unsat"] == 0:
+        return 3  # nothing could be decided at all: the check did not run
     return 0
 
 
